@@ -383,6 +383,23 @@ func (k knownFinding) matches(property, assertion string, sig map[string]string)
 	return true
 }
 
+// engineRuns counts the runs each engine contributed to the current check.
+var engineRuns = map[string]int{}
+
+func componentsOf(spec propSpec) []string {
+	out := append([]string{}, spec.Components...)
+	if spec.Also != "" {
+		other := worldComponents
+		if spec.Also == "sched" {
+			other = schedComponents
+		}
+		for _, c := range other {
+			out = append(out, "second engine ("+spec.Also+") — "+c)
+		}
+	}
+	return out
+}
+
 // scratch is the check's temporary directory (removed on exit and on signals).
 var scratch string
 
@@ -489,7 +506,10 @@ func cmdCheck(id, tier string) int {
 	}
 	var alsoBin string
 	var alsoOps planOps
+	engineRuns = map[string]int{spec.Engine: a.runs}
 	if spec.Also != "" {
+		before := a.runs
+		defer func() { _ = before }()
 		alsoBin, err = build(spec.Also, tmp)
 		if err != nil {
 			fmt.Println(err)
@@ -508,6 +528,7 @@ func cmdCheck(id, tier string) int {
 			fmt.Println(err)
 			die(exitUnwell, "worker trouble in the %s engine (not a violation)", spec.Also)
 		}
+		engineRuns[spec.Also] = a.runs - before
 	}
 	runS := time.Since(runStart).Seconds()
 	if len(a.harnessErr) > 0 {
@@ -889,7 +910,8 @@ func writeEvidence(id, tier string, master uint64, a *agg, spec propSpec, wall, 
 			"build_s":              buildS,
 			"run_s":                runS,
 			"first_seed_index":     0,
-			"components":           spec.Components,
+			"components":           componentsOf(spec),
+			"runs_by_engine":       engineRuns,
 			"toolchain":            "go1.26.8 (testing/synctest, testing/cryptotest); /repo built with -tags verif",
 		},
 		"assumptions": []string{
